@@ -184,6 +184,16 @@ var props = map[string]propDef{
 		Thorough:       budget{Runs: 8000, Chunk: 40, Wall: 40 * time.Minute, PerChunkGrace: 5 * time.Minute},
 		MinimiseBudget: 90 * time.Second,
 	},
+	"C24": {
+		Binary: "dsim-sql", Harness: "C24", Level: "exploration",
+		Rule: "each run = 2-4 sessions (autocommit drawn per session) on main plus one session on branch b1 behind the production SQL engine; tables parent(id PK) and child(id PK, pid FK -> parent, u UNIQUE, n NOT NULL, m NOT NULL, CHECK n >= m); 25-80 seeded statements (up to 160 thorough) over tiny domains so that transactions are legal alone and illegal together (child insert vs. parent delete, same unique value twice, n and m of one row moved past each other), COMMIT/ROLLBACK, dolt_commit, dolt_merge('b1') under autocommit, clean restarts. After every acknowledged commit of any kind an independent evaluator scans the committed tables (also AS OF each new dolt commit, and on b1) and re-checks primary key, unique, foreign key, NOT NULL and CHECK from first principles. Two thirds of the runs end with a forced merge (@@dolt_force_transaction_commit = 1): every violating row the evaluator finds afterwards must be listed in dolt_constraint_violations_child. One evaluation = one constraint re-check of a committed state.",
+		Assumptions: []string{"constraint checks are never disabled by the workload (foreign_key_checks stays 1), so no exemption applies", "schema changes that alter constraints are not generated"},
+		Real:        sqlReal, Stub: sqlStub, Persistence: "not used (clean restarts only)",
+		ExpectProbes:   []string{"commit_ok", "commit-refused-for-constraint-violation", "branch-merge", "dolt-commit", "forced-merge-with-violations", "recorded_violations"},
+		Quick:          budget{Runs: 160, Chunk: 10, Wall: 150 * time.Second, PerChunkGrace: 120 * time.Second},
+		Thorough:       budget{Runs: 8000, Chunk: 40, Wall: 40 * time.Minute, PerChunkGrace: 5 * time.Minute},
+		MinimiseBudget: 90 * time.Second,
+	},
 	"C27": {
 		Binary: "dsim-sql", Harness: "C27", Level: "exploration",
 		Rule: "each run = 2-3 sessions (autocommit drawn per session) on main plus one session on branch b1 of a fresh on-disk repository behind the production SQL engine; one keyless table kl(a, b) with a secondary index; 20-70 seeded statements: multi-row INSERT of duplicate rows, DELETE ... LIMIT n, UPDATE ... LIMIT n, COMMIT / ROLLBACK, edits on b1, CALL dolt_merge('b1'), clean restarts. The reference model is a multiset per session (snapshot + own writes) and per branch; transaction commits and branch merges combine multiplicity changes row by row (both sides changed the multiplicity of one row differently => must be reported as a conflict). Every GROUP BY over all columns, COUNT(*) and index lookup must equal the multiset. One evaluation = one checked read.",
